@@ -36,5 +36,9 @@ EarlyPassExact == ~expired => (ImplPassed(thr, T, v, FALSE, NeedYes) <=> PassCer
 EarlyRejectSound == ~expired /\ ImplRejected(thr, T, v, FALSE) => CannotPass(thr, T, v)
 AfterExpiryRejectSound == expired /\ ImplRejected(thr, T, v, TRUE) => ~DocPassedAtEnd(thr, T, v)
 NotBoth == ~(ImplPassed(thr, T, v, expired, NeedYes) /\ ImplRejected(thr, T, v, expired))
+\* the closed forms used on traces are the quantified notions
+RulePassedIsCertain == IF expired THEN RulePassed(thr, T, v, TRUE) <=> DocPassedAtEnd(thr, T, v)
+                                  ELSE RulePassed(thr, T, v, FALSE) <=> PassCertain(thr, T, v)
+RuleCanPassExact == RuleCanPass(thr, T, v) <=> ~CannotPass(thr, T, v)
 NeededExact == \A w \in 0..MaxT : \A p \in Pcts \cup Quos \cup {PDEN - x : x \in Pcts} : ImplNeeded(w, p) = ExactNeeded(w, p)
 =============================================================================
